@@ -14,7 +14,7 @@
    one unhandled-escape callback.  With BEL (OSC) or the C1 ST 0x9C (DCS) nothing extra is
    reported.  See C18_osc_st, C18_examples_strings. *)
 Require Import Tac ListN Utf8 Attrs Cell Row Grid Screen Vte Perform Parser Term.
-Require Import VteInv VteChunk ParseSer ScreenInv EventSpec SeqSpec EventSeq.
+Require Import VteInv VteChunk ParseSer ScreenInv EventSpec SeqSpec EventSeq Chunking.
 Open Scope N_scope.
 
 (* ---- 5. the table ---- *)
@@ -43,9 +43,12 @@ Theorem C18_exact_all : forall rz acts s evs0 s' evs,
   perform_all rz s acts evs0 = Ok (s', evs) -> evs = evs0 ++ events_all rz s acts.
 Proof. exact EventSpec.C18_exact_all. Qed.
 
+(* [delivered p bs] (Chunking.v) is what process hands to vte: pend p ++ bs without its incomplete
+   utf-8 tail, which is held back for the next call (K04a repair); it is bs itself when pend p = []
+   and bs ends in a complete character (Chunking.delivered_clean) *)
 Theorem C18_process : forall p bs q,
   process p bs = Ok q ->
-  log q = log p ++ events_all (resizing p) (scr p) (snd (advance (vt p) bs)).
+  log q = log p ++ events_all (resizing p) (scr p) (snd (advance (vt p) (delivered p bs))).
 Proof. exact EventSpec.C18_process. Qed.
 
 Theorem C18_events_all_app : forall rz a1 a2 s s1 e1,
@@ -198,8 +201,9 @@ Theorem C18_char_vte : forall p c,
   advance p (utf8_encode c) = (p, [ground_action c]).
 Proof. exact advance_one_char. Qed.
 
-(* ---- end to end: bytes -> log ---- *)
+(* ---- end to end: bytes -> log ([pend p = []]: the parser holds no bytes back) ---- *)
 Theorem C18_csi : forall p mk G ins f q,
+  pend p = [] ->
   ground (vt p) -> csi_ok mk G ins f ->
   process p (csi_bytes mk G ins f) = Ok q ->
   ground (vt q) /\
@@ -207,6 +211,7 @@ Theorem C18_csi : forall p mk G ins f q,
 Proof. exact C18_csi_once. Qed.
 
 Theorem C18_esc : forall p ins f q,
+  pend p = [] ->
   ground (vt p) -> esc_ok ins f ->
   process p (esc_bytes ins f) = Ok q ->
   ground (vt q) /\
@@ -214,19 +219,22 @@ Theorem C18_esc : forall p ins f q,
 Proof. exact C18_esc_once. Qed.
 
 Theorem C18_osc_bel : forall p fs,
+  pend p = [] ->
   ground (vt p) -> osc_ok fs ->
   process p (osc_bytes_bel fs) =
-  Ok (mkParser p_init (scr p) (log p ++ osc_events fs) (resizing p)).
+  Ok (mkParser p_init (scr p) (log p ++ osc_events fs) (resizing p) []).
 Proof. exact C18_osc_bel_once. Qed.
 
 (* OBSERVATION: the ST terminator is itself reported *)
 Theorem C18_osc_st : forall p fs,
+  pend p = [] ->
   ground (vt p) -> osc_ok fs ->
   process p (osc_bytes_st fs) =
-  Ok (mkParser p_init (scr p) (log p ++ osc_events fs) (resizing p)).
+  Ok (mkParser p_init (scr p) (log p ++ osc_events fs) (resizing p) []).
 Proof. exact C18_osc_st_once. Qed.
 
 Theorem C18_char : forall p c q,
+  pend p = [] ->
   ground (vt p) -> is_scalar c = true -> c <> 27 ->
   process p (utf8_encode c) = Ok q ->
   vt q = vt p /\ log q = log p ++ events_of (resizing p) (scr p) (ground_action c).
@@ -234,7 +242,7 @@ Proof. exact C18_char_once. Qed.
 
 Theorem C18_reported_sequence : forall p bs v' a q,
   resizing p = false ->
-  advance (vt p) bs = (v', [a]) -> reported a = true -> process p bs = Ok q ->
+  advance (vt p) (delivered p bs) = (v', [a]) -> reported a = true -> process p bs = Ok q ->
   scr q = scr p /\ log q = log p ++ events_of false (scr p) a /\ events_of false (scr p) a <> [].
 Proof. exact C18_reported_sequence_inert. Qed.
 
